@@ -260,16 +260,16 @@ Theorem C17_too_large_is_413_refuted :
 Proof. exact too_large_is_413_refuted. Qed.
 Print Assumptions C17_too_large_is_413_refuted.
 
-(* it holds for a streamed proxy upload, with or without Content-Length ... *)
+(* it holds for a proxied upload, streamed or buffered, with or without Content-Length ... *)
 Theorem C17_too_large_is_413_partial :
-  forall clf bs, consumer_status ProxyStream clf (Some TooLarge) bs = 413.
+  forall k clf bs, k <> Fastcgi -> consumer_status k clf (Some TooLarge) bs = 413.
 Proof. exact too_large_is_413_partial. Qed.
 Print Assumptions C17_too_large_is_413_partial.
 
 (* ... and nowhere else (fastcgi relays the responder's own status) *)
 Theorem C17_too_large_status_table :
   forall k clf bs, consumer_status k clf (Some TooLarge) bs = 413 <->
-    k = ProxyStream \/ (k = Fastcgi /\ bs = 413).
+    k <> Fastcgi \/ bs = 413.
 Proof. exact too_large_status_table. Qed.
 Print Assumptions C17_too_large_status_table.
 
